@@ -1,5 +1,4 @@
 import LlirProofs.NatsortOrder
-import LlirModel.Generated.Facts
 /-! # C20 — canonical, input-order-independent order of definitions (property theorems only)
 
 `less` is the model of `natsort.Less`. It is the lexicographic order of token keys
@@ -99,15 +98,6 @@ theorem sort_sorted (l : List Bytes) : Sorted (Natsort.sort l) := by
 /-- Permuting the input does not change the sorted output. -/
 theorem sort_perm_invariant (l₁ l₂ : List Bytes) (hp : l₁.Perm l₂) : Natsort.sort l₁ = Natsort.sort l₂ :=
   sorted_perm_unique _ _ ((sort_perm l₁).trans (hp.trans (sort_perm l₂).symm)) (sort_sorted l₁) (sort_sorted l₂)
-
-/-- Which comparison orders each list of definitions, decided on facts REGENERATED from the current source
-    (go/ast over asm/translate.go and ir/module.go WriteTo): type definitions, comdats and named metadata by
-    natural sort, attribute groups and metadata definitions by `<` on their IDs, global entities in textual order. -/
-theorem sort_calls :
-    Generated.Facts.sort_addTypeDefsToModule = "natsort" ∧ Generated.Facts.sort_addComdatDefsToModule = "natsort" ∧
-    Generated.Facts.sort_namedMetadataInWriteTo = "natsort" ∧
-    Generated.Facts.sort_addAttrGroupDefsToModule = "sort.Slice<" ∧ Generated.Facts.sort_addMetadataDefsToModule = "sort.Slice<" ∧
-    Generated.Facts.sort_addGlobalEntitiesToModule = "textual-order" := by decide
 
 /-- non-vacuity and the numeric reading on concrete names: "a2" < "a12", "2" < "02" -/
 example : less [97, 50] [97, 49, 50] = true := by
